@@ -370,6 +370,10 @@ func CopyObject(db Backend, srcBucket, srcKey, dstBucket, dstKey string, meta ma
 }
 
 func MergeMetadata(db Backend, bucketName string, objectName string, meta map[string]string) error {
+	if meta == nil {
+		// PutObject allows a nil map; there is nothing to merge into.
+		return nil
+	}
 	// get potential existing object to potentially carry metadata over
 	existingObj, err := db.GetObject(bucketName, objectName, nil)
 	if err != nil {
